@@ -93,6 +93,8 @@ def _small(u, name):
     return v
 sock_read_small = _small(sock_read, 'Socket_read_small')
 sock_write_small = _small(sock_write, 'Socket_write_small')
+for _u in (sock_read, sock_write, sock_read_small, sock_write_small):     # set here: C09 imports these units and would otherwise attach its own driver first
+    _u.replay = replay.battery('C10/driver.cpp', ['battery'])
 UNITS = [sock_read, sock_write, sock_read_small, sock_write_small]
 
 http_write = Unit(
